@@ -134,7 +134,9 @@ def corpus():
     ]
 
 
-SOAK_CFG = {"quick": [(8, 1500, 5000, 2, 16), (3, 400, 5000, 1, 60)], "thorough": [(16, 20000, 10000, 4, 16), (8, 20000, 10000, 2, 50), (4, 3000, 10000, 1, 80)]}
+# (writers, updates per writer, per-update deadline ms, readers, percentage of session-wide withdrawals)
+SOAK_CFG = {"quick": [(8, 6000, 5000, 2, 16), (16, 1500, 5000, 2, 30), (3, 400, 5000, 1, 60)],
+            "thorough": [(16, 40000, 10000, 4, 16), (8, 40000, 10000, 2, 50), (32, 5000, 10000, 4, 30), (4, 3000, 10000, 1, 80)]}
 
 
 def soak(V, tier, seed):
@@ -161,9 +163,19 @@ def soak(V, tier, seed):
                     "a reader saw an entry that no writer wrote" if verdict.startswith("corrupt") else "the soak failed")
             r["failures"].append({"what": f"c09-soak: {what}: {verdict[:600]}", "kind": "property", "replay_cmd": " ".join(args)})
         else:
-            model = V.run_lines(V.ORACLE, "c09", [case])[0]
+            # the sequential composition of the writers' logs (RibModel.rib_run); small runs also through the concurrent model itself
+            model = V.run_lines(V.ORACLE, "c09seq", [case])[0]
             mo, spec = V.split_model(model)
-            run["judged_by_model"] = True
+            run["judged_by"] = "RibModel.rib_run (concat logs)"
+            if nt * nops <= 3000:
+                m2, _ = V.split_model(V.run_lines(V.ORACLE, "c09", [case])[0])
+                run["judged_by"] += " and RibConc.run"
+                if m2 != mo:
+                    raise V.CheckBroken("oracle engines c09 and c09seq disagree on a soak log (contradicts C09_interleaving_equals_sequential)")
+            if mo.startswith("MODEL-ERROR"):
+                raise V.CheckBroken("oracle failed on a soak log: " + mo)
+            run["final_active_entries"] = final.count("=A")
+            run["final_withdrawn_entries"] = final.count("=W")
             if not V.obs_match(spec, final):
                 d = V.first_diff(spec, final)
                 r["failures"].append({"what": "c09-soak: after all writers finished the RIB does not hold every writer's last write: "
